@@ -120,7 +120,7 @@ pub fn run(tier: Tier, seed: u64, only: Option<usize>) -> i32 {
         "the snapshot is taken inside the publish callback, so Hop::last_nat_status() of a hop that responded in the round is that round's status".into(),
     ];
     rep.required_clauses = vec!["nat_detected_iff_checksum_changed", "nat_detected_cases", "not_applicable_elsewhere", "no_rewriting_never_shows_nat", "single_device_flagged_once_at_or_beyond_k"];
-    let n = tier.pick(1200, 40_000);
+    let n = tier.pick(50_000, 1_000_000);
     match only {
         Some(i) => {
             let o = run_scenario(seed, i, tier);
